@@ -330,7 +330,7 @@ func genVariantsFor(id string) []string {
 	case "C05":
 		return gen.GoVariants
 	case "C17":
-		return gen.GoVariants
+		return append(append([]string(nil), gen.GoVariants...), gen.GoG)
 	case "C07":
 		return []string{gen.Go, gen.GoOU, gen.TS}
 	}
@@ -403,6 +403,11 @@ func genBatch(w *Worker, id string, cases []*genCase, name string) {
 		if verr != nil {
 			w.Count("gen_skipped_front_end_mismatch", 1)
 			w.SetAdd("front_end_mismatch", verr.Error())
+			if id == "C07" {
+				// the action of rule i is emitted under case i: if yaccgo's rule list is not the file's, $n and $$ belong to another rule
+				w.Violate("C07|rules-differ-from-specification|"+c.Spec.Key(), fmt.Sprintf("grammar [%s]: the rule list yaccgo works on is not the rule list of the file (%s), so actions are attached to other rules than written", c.Spec.Key(), verr.Error()),
+					&GCase{Origin: "gen", Extra: mustJSON(c)}, map[string]interface{}{"grammar_text": d.Source(gen.Go, "p")})
+			}
 			continue
 		}
 		o.vw = vw
@@ -414,6 +419,22 @@ func genBatch(w *Worker, id string, cases []*genCase, name string) {
 			k--
 		}
 		o.inputs = allInputs(d, k)
+		// plus one short sentence per rule (so that long rules and rules deep in the grammar are reduced
+		// at least once by every variant), up to 16 tokens
+		have := map[string]bool{}
+		for _, in := range o.inputs {
+			have[in] = true
+		}
+		for _, sent := range g.CoverSentences(16) {
+			var b []byte
+			for _, t := range sent {
+				b = append(b, d.Chars[g.Names[t]])
+			}
+			if !have[string(b)] {
+				have[string(b)] = true
+				o.inputs = append(o.inputs, string(b))
+			}
+		}
 		for vi, v := range variants {
 			pkg := fmt.Sprintf("p%d_%d", i, vi)
 			o.items[v] = b.Add(pkg, v, d)
@@ -526,6 +547,10 @@ func genJudge(w *Worker, id string, o *obs, variants []string) {
 	dense := lrm.Dense(o.vw.V)
 	packed := lrm.Packed(o.vw.V)
 	nontrivial := false
+	var refM *lrm.Machine
+	if id == "C06" && !o.tbl.ConflictFree && o.tbl.AllJudged() {
+		refM = refMachine(o.g, o.tbl)
+	}
 	for _, v := range variants {
 		it := o.items[v]
 		if it == nil {
@@ -601,6 +626,8 @@ func genJudge(w *Worker, id string, o *obs, variants []string) {
 			case "C06":
 				if r.Class == "crash" || r.Class == "nil" || r.Class == "hang" {
 					bad("undocumented-failure", v, in, "the parser fails with "+r.Class+": "+r.Panic, nil)
+				} else if refM != nil && r.Class == "accept" && refVerdict(refM, o, in) == lrm.Rejected {
+					bad("error-by-declaration-not-reported", v, in, "with the declared precedence and associativity this input is a syntax error, but the parser returns a result", nil)
 				} else if o.tbl.ConflictFree && !infos[i].member {
 					if r.Class != "syntax-error" {
 						bad("non-sentence-not-rejected", v, in, "not a sentence, but the parser answers "+r.Class, nil)
@@ -709,4 +736,26 @@ func pow(b, e int) int {
 		r *= b
 	}
 	return r
+}
+
+// refVerdict runs the reference machine on a complete input.
+func refVerdict(m *lrm.Machine, o *obs, in string) lrm.Outcome {
+	toks := o.toks(in)
+	c := lrm.Config{St: []int{0}, Sym: []int{o.g.EOF()}}
+	pos := 0
+	for {
+		la := o.g.EOF()
+		if pos < len(toks) {
+			la = toks[pos]
+			if la < 0 {
+				return lrm.Rejected
+			}
+		}
+		next, sr := m.Step(c, la, 4000)
+		if sr.Out != lrm.Shifted {
+			return sr.Out
+		}
+		c = next
+		pos++
+	}
 }
